@@ -358,4 +358,10 @@ def spelled(inp):
     return clause, cand, R.admits(op, v, wild, c, raw)
 
 
-PROP = C03()
+from srccall import with_src  # noqa: E402
+
+# translated source: the three helpers of `==V.*` / `~=V` are proved equal to the model functions the theorems use
+PROP = with_src(C03(), ["_is_not_suffix", "_version_join", "_pad_version"], "PkgProofs.Props.Src.Specifier",
+                ["Src._is_not_suffix_translated", "Src._is_not_suffix_eq_model",
+                 "Src._version_join_translated", "Src._version_join_eq_model",
+                 "Src._pad_version_translated", "Src._pad_version_eq_model"])
